@@ -38,15 +38,15 @@ import (
 type C20 struct{ Prop string }
 
 type C20Body struct {
-	Mode    string   `json:"mode"`  // shared | procs
-	Store   string   `json:"store"` // journal | local
-	NTasks  int      `json:"ntasks"`
-	Iters   int      `json:"iters"`
-	Mix     []string `json:"mix"` // enabled operation kinds
-	Seed    uint64   `json:"sched_seed"`
-	Sched   []int    `json:"sched,omitempty"`
-	PCT     int      `json:"pct"` // 0 = random walk, d>0 = priority-based strategy of depth d
-	YieldOps []string `json:"yield_ops,omitempty"`
+	Mode     string    `json:"mode"`  // shared | procs
+	Store    string    `json:"store"` // journal | local
+	NTasks   int       `json:"ntasks"`
+	Iters    int       `json:"iters"`
+	Mix      []string  `json:"mix"` // enabled operation kinds
+	Seed     uint64    `json:"sched_seed"`
+	Sched    []int     `json:"sched,omitempty"`
+	PCT      int       `json:"pct"` // 0 = random walk, d>0 = priority-based strategy of depth d
+	YieldOps []string  `json:"yield_ops,omitempty"`
 	Crash    *c21Crash `json:"crash,omitempty"` // C21: replay exactly this crash image
 }
 
@@ -99,17 +99,17 @@ func (h C20) Generate(seed uint64, tier string) *core.Scenario {
 // ---- the reference model: a map dataset-id -> address with conditional operations -------------
 
 type refOp struct {
-	Kind   string // commit | commitws | ff | sethead | tag | delete | updatews | read | newbranch
-	DS     string
-	WS     string
-	Obs    string // head observed by the caller (the CAS expectation)
-	ObsWS  string
-	New    string
-	NewWS  string
-	Anc    bool              // ff: the new commit descends from Obs (by the harness's own DAG)
-	Ok     bool
-	Snap   map[string]string // read: the snapshot returned
-	Err    string
+	Kind  string // commit | commitws | ff | sethead | tag | delete | updatews | read | newbranch
+	DS    string
+	WS    string
+	Obs   string // head observed by the caller (the CAS expectation)
+	ObsWS string
+	New   string
+	NewWS string
+	Anc   bool // ff: the new commit descends from Obs (by the harness's own DAG)
+	Ok    bool
+	Snap  map[string]string // read: the snapshot returned
+	Err   string
 }
 
 func encState(m map[string]string) string {
@@ -141,7 +141,14 @@ func decState(s string) map[string]string {
 // refsModel: dirty(wsAddr, headAddr) tells whether the working set value is dirty with respect to
 // the head commit (staged != working, or staged != the commit's root); it is a function of the two
 // immutable values, looked up in tables the harness filled when it created them.
-func refsModel(init map[string]string, dirty func(ws, head string) bool) porcupine.Model {
+//
+// staleRefusals: the sessions are processes with a store object each. database.update reads the root
+// its own store object has cached and returns the edit function's error without attempting the
+// compare-and-swap that would tell it the root is stale, so a refusal (dirty workspace, merge needed)
+// can rest on a state that is no longer current. The property allows a conditional update to fail;
+// only within one store object, whose cached root every commit of the process refreshes, must a
+// dirty-workspace refusal be justified by the state at its linearization point.
+func refsModel(init map[string]string, dirty func(ws, head string) bool, staleRefusals bool) porcupine.Model {
 	return porcupine.Model{
 		Init: func() interface{} { return encState(init) },
 		Step: func(state, input, output interface{}) (bool, interface{}) {
@@ -151,7 +158,7 @@ func refsModel(init map[string]string, dirty func(ws, head string) bool) porcupi
 				return encState(op.Snap) == state.(string), state
 			}
 			if !op.Ok {
-				if op.Kind == "delete" && op.Err == "dirty-workspace" {
+				if op.Kind == "delete" && op.Err == "dirty-workspace" && !staleRefusals {
 					// refused as dirty: at the linearization point there must be a dirty working set
 					ws, has := st[op.WS]
 					return has && dirty != nil && dirty(ws, st[op.DS]), state
@@ -261,8 +268,8 @@ type refsWorld struct {
 	// head's root are "dirty" (Delete with a working-set path must refuse them)
 	rootVals [2]types.Value
 	rootRefs [2]types.Ref
-	vrw     *types.ValueStore
-	cs      chunks.ChunkStore
+	vrw      *types.ValueStore
+	cs       chunks.ChunkStore
 }
 
 func openRefsWorld(ctx context.Context, dir, store string, s *core.Sched, init bool) (*refsWorld, error) {
@@ -823,7 +830,12 @@ func (h C20) Execute(t *testing.T, sc *core.Scenario) *core.Result {
 		}
 	}
 	if len(hist) <= 70 {
-		r := porcupine.CheckOperationsTimeout(refsModel(init, isDirty), hist, 0)
+		r := porcupine.CheckOperationsTimeout(refsModel(init, isDirty, false), hist, 0)
+		if r == porcupine.Illegal && b.Mode == "procs" {
+			if r = porcupine.CheckOperationsTimeout(refsModel(init, isDirty, true), hist, 0); r == porcupine.Ok {
+				res.Probe("refusal_rested_on_a_stale_root")
+			}
+		}
 		switch r {
 		case porcupine.Illegal:
 			var lines []string
